@@ -27,10 +27,10 @@ RULE = ('runs generated from the seed: a world of n FASTA files (n 0..8, thoroug
 
 REAL = ['gambit.sigs.calc.calc_file_signatures', 'calc_file_signature', 'SequenceFile.parse', 'gambit.util.io.open_compressed',
         'Bio.SeqIO fasta parser', 'gzip', 'k-mer search (Cython)', 'accumulators', 'progress meters', 'pickle of task arguments/results']
-STUB = ['concurrent.futures pools, futures, as_completed/wait (gvsim.seams.executor)', 'process boundary (pickle round trip in-process)',
+STUB = ['concurrent.futures pools, futures, as_completed/wait (gvsim.seams.executor); in half of the thread-pool executions task bodies run in real threads, one at a time, pre-empted at Python line events of gambit frames chosen by the scheduler', 'process boundary (pickle round trip in-process)',
         'file reads of faulted paths (gvsim.seams.iosim.SimRaw over the real file)']
 ASSUMPTIONS = [
-	'a task body runs atomically at its completion instant; for thread pools this abstracts byte-code interleavings between tasks (task bodies share no mutable state)',
+	'process-pool task bodies run atomically at their completion instant (exact: tasks share nothing); thread-pool task bodies are either atomic or interleaved at line granularity in gambit frames - not at byte-code granularity, and not inside Biopython / NumPy frames',
 	'the reference outcome of a file is what calc_file_signature returns/raises when run alone under the same permanent read faults',
 	'a raised call is accepted iff some input is unreadable by the reference execution or a pool-level/transient fault fired',
 ]
@@ -215,7 +215,7 @@ MODEL_UNREADABLE = ('missing', 'trunc_gz', 'nofasta')
 
 
 def _execute(ctx, kspec, paths, refmaker, mode, workers, policy, script, starve, seam_specs, pool_faults,
-             interrupt_at, progress, machine, info=None):
+             interrupt_at, progress, machine, info=None, interleave=False, quantum=200):
 	"""One execution of calc_file_signatures under the simulator. Returns nothing; raises Violation."""
 	from gambit.seq import SequenceFile
 	from gambit.sigs.calc import calc_file_signatures
@@ -235,7 +235,7 @@ def _execute(ctx, kspec, paths, refmaker, mode, workers, policy, script, starve,
 	plan = iosim.Plan(ctx)
 	for p, spec in seam_specs.items():
 		plan.set(p, **spec)
-	sim = sx.Sim(ctx, machine_size=machine, policy=policy, script=script, starve=starve)
+	sim = sx.Sim(ctx, machine_size=machine, policy=policy, script=script, starve=starve, interleave=interleave, quantum=quantum)
 	sim.task_faults = dict(pool_faults)
 	sim.interrupt_at = interrupt_at
 	kw = dict(progress=progress)
@@ -274,7 +274,7 @@ def _execute(ctx, kspec, paths, refmaker, mode, workers, policy, script, starve,
 	desc = dict(mode=mode, workers=workers, order=order, kspec=kspec, kinds=kinds)
 	unread = sorted(set([i for i in range(n) if refs[i][0] == 'unreadable'] + model_unread))
 	oc = 'ret' if outcome[0] == 'ret' else 'raised:' + type(outcome[1]).__name__
-	ctx.log('exec', n=n, mode=mode, workers=workers, policy=policy, order=order, unreadable=unread,
+	ctx.log('exec', n=n, mode=mode, workers=workers, policy=policy, order=order, unreadable=unread, preemptions=sim.preemptions,
 	        seam={os.path.basename(p): sorted(s.items()) for p, s in seam_specs.items() if set(s) - {'short'}},
 	        pool_faults=sorted(pool_faults.items()), interrupt_at=interrupt_at, outcome=oc,
 	        result=None if outcome[0] != 'ret' else _res_hash(outcome[1]))
@@ -382,6 +382,9 @@ def scenario(ctx):
 			pool_faults[ch.int(0, n - 1, L + '.unpick_task')] = 'unpicklable'
 		interrupt_at = ch.int(1, max(1, n), L + '.int_at') if (n and ch.flip(0.07, L + '.interrupt')) else None
 		progress = _progress(ch)
+		# thread flavour: half of the executions pre-empt task bodies at line events instead of running them atomically
+		interleave = mode in ('threads', 'exec-threads') and ch.flip(0.4, L + '.interleave')
+		quantum = ch.pick([60, 12, 500], L + '.quantum') if interleave else 200
 		_execute(ctx, kspec, paths, refmaker, mode, workers, policy, None, starve, specs, pool_faults,
-		         interrupt_at, progress, machine, info)
+		         interrupt_at, progress, machine, info, interleave, quantum)
 	ctx.sample = dict(kind='sampled', n=n, executions=n_exec)
